@@ -761,6 +761,10 @@ def run(rep):
         "integer overflow freedom; panics in checked indexing driven by run-time f64 positions beyond the stated margin rules",
         ]
     rep.trusted += ["syn parser", "sympy simplification", "Rust slice / assert! semantics"]
+    # everything else a working resampler needs (see rules/shares.py: a change that makes the resampler panic, drop frames, corrupt state on a
+    # rejected call or forward a trait-object call wrongly breaks this property as well)
+    import shares as _shares
+    _shares.complete(rep)
     return rep.finish(level="other", explanation=(
         "Guard-dominance rules for the unsafe kernels, index-discipline rules for unchecked channel access, and symbolic margin rules "
         "that relate loop guards, kernel reach, history length and input provisioning. Each is a necessary condition for memory safety "
